@@ -430,6 +430,10 @@ class SimRunner:
     """The asyncio.Task for this simulator."""
 
     outputs: Optional[Dict[Time, OutputData]]
+    first_output_time: Optional[Time]
+    """The time of the first output that this simulator has produced
+    (``None`` as long as there is none). Until then, the output cache
+    only holds initial data."""
     tqdm: tqdm.tqdm[NoReturn]  # type: ignore
 
     def __init__(
@@ -479,6 +483,7 @@ class SimRunner:
         self.output_request = {}
 
         self.outputs = None
+        self.first_output_time = None
 
     def schedule_step(self, tiered_time: TieredTime):
         """Schedule a step for this simulator at the given time. This
